@@ -149,6 +149,18 @@ Theorem C03_get_mut_then_get : forall pbytes s c new s' r n, ainv pbytes s -> fs
 Proof. exact get_mut_then_get. Qed.
 Print Assumptions C03_get_mut_then_get.
 
+(* insert is accepted exactly when the key is absent and the count is below both the slot count and the largest count the
+   length prefix can record (pmax - 1); an accepted insert raises the count by exactly one, the slot count never changes *)
+Theorem C03_insert_accepts_iff : forall pbytes s c s' b n, ainv pbytes s ->
+  astep_c pbytes s (AInsert c) = Ok (s', ABool b, n) ->
+  b = (match as_find (aabs s) (fst c) with
+       | Some _ => false
+       | None => negb (N.min (N.of_nat (length (aslots s))) (pmax pbytes - 1) <=? alen s)
+       end) /\
+  alen s' = (if b then alen s + 1 else alen s) /\ length (aslots s') = length (aslots s).
+Proof. exact insert_accepts_iff. Qed.
+Print Assumptions C03_insert_accepts_iff.
+
 (* non-vacuity: one-byte prefix, four slots, canary cells around the buffer *)
 Example C03_example :
   let ops := [AInsert (5, 50); AInsert (3, 30); AInsert (9, 90); AInsert (3, 31); ATake (5, 0); ADeref; ALen]%Z in
